@@ -5,7 +5,7 @@
 (* and growing streams:                                                       *)
 (*  - theorems T1-T3 (position = declarative rank = bijection; container      *)
 (*    indices are bijections; standard sequence);                             *)
-(*  - all histories of <= MaxDepth requests through every access path         *)
+(*  - all histories of <= d requests (d per geometry) through every access path  *)
 (*    (in range and one past either end of every index): the implementation-  *)
 (*    shaped stream procedures keep the stream coherent with the abstract     *)
 (*    array after EVERY request, requests out of range change nothing.        *)
@@ -27,12 +27,13 @@ Geoms ==
   ELSE
   { Geo(-1, << <<0, 0>>, <<0, 1>>, <<0, 0>> >>, 2, 2, 1, 2),
     Geo(0, << <<0, 1>> >>, 2, 3, 1, 3),
-    Geo(-1, << <<0, 0>>, <<0, 1>>, <<0, 0>> >>, 2, 2, 3, 2),
-    Geo(-1, << <<0, 1>>, <<0, 2>>, <<0, 0>> >>, 3, 2, 1, 2),        \* asymmetric axial sizes 2/3/1, 3 views
+    Geo(-1, << <<0, 0>>, <<0, 1>>, <<0, 0>> >>, 2, 2, 3, 1),
+    Geo(-1, << <<0, 1>>, <<0, 2>>, <<0, 0>> >>, 2, 2, 1, 2),        \* asymmetric axial sizes 2/3/1
     Geo(-1, << <<0, 1>>, <<0, 2>>, <<0, 1>>, <<0, 0>> >>, 2, 2, 1, 1),   \* asymmetric segment range -1..2
     Geo(-2, << <<0, 0>>, <<0, 1>>, <<0, 2>>, <<0, 1>>, <<0, 0>> >>, 2, 1, 1, 1),  \* 5 segments: 120 permutations
     Geo(-1, << <<1, 1>>, <<0, 2>>, <<1, 1>> >>, 2, 2, 3, 1),        \* TOF, axial ranges not starting at 0
-    Geo(0, << <<0, 1>> >>, 3, 2, 5, 2) }                            \* TOF, 5 bins
+    Geo(0, << <<0, 1>>, <<0, 0>> >>, 2, 2, 3, 2),                   \* TOF, segments 0..1, pairs of requests
+    Geo(0, << <<0, 1>> >>, 3, 2, 5, 2) }                            \* TOF, 5 bins, pairs of requests
 
 Perms(S) == { q \in [1..Cardinality(S) -> S] : \A i, j \in 1..Cardinality(S) : i # j => q[i] # q[j] }
 Layouts(gg) == { [byView |-> bv, seq |-> q] : bv \in BOOLEAN, q \in Perms(Segs(gg)) }
